@@ -4,7 +4,7 @@ import vlib
 from vlib import Result, log
 from arena import Arena
 
-THEOREMS = ["C16_range_exact", "C16_range_sound", "C16_exclusive_clamp_refuted", "C16_nested_reaches", "C16_nested_minimal", "C16_nonvacuous"]
+THEOREMS = ["C16_range_exact", "C16_range_sound", "C16_exclusive_clamp_refuted", "C16_nested_reaches", "C16_nested_minimal", "C16_clamp_table_from_source", "C16_nonvacuous"]
 TARGETS = ["Props/C16.v"]
 
 I32_MAX, I32_MIN = 2**31 - 1, -2**31
